@@ -23,7 +23,8 @@ import time
 VERIF = os.path.dirname(os.path.dirname(os.path.abspath(__file__)))
 REPO = "/repo"
 BUILD = os.path.join(VERIF, ".build")
-EVID = os.path.join(VERIF, "evidence")
+# with VERIF_REPO (development aid, see alt_repo) evidence goes to a scratch directory, never to /verif/evidence
+EVID = os.path.join(BUILD, "alt-evidence") if os.environ.get("VERIF_REPO") else os.path.join(VERIF, "evidence")
 KANI_FLAGS = ["-Z", "stubbing", "-Z", "unstable-options", "-Z", "restrict-vtable"]
 GUARD = "--cfg tracing_verif"
 
@@ -69,12 +70,12 @@ def env_for_kani():
     return e
 
 
-def prepare_group(group, tier="thorough"):
-    gdir = os.path.join(VERIF, "engines", "kani", group)
+def prepare_group(group, tier="thorough", gdir=None):
+    gdir = gdir or os.path.join(VERIF, "engines", "kani", group)
     # the lock file starts as a copy of the repository's, so that dependency versions match
     lock = os.path.join(gdir, "Cargo.lock")
     if not os.path.exists(lock):
-        shutil.copy(os.path.join(REPO, "Cargo.lock"), lock)
+        shutil.copy(os.path.join(alt_repo() or REPO, "Cargo.lock"), lock)
     gen = os.path.join(gdir, "gen.py")
     if os.path.exists(gen):
         e = dict(os.environ)
@@ -83,9 +84,46 @@ def prepare_group(group, tier="thorough"):
     return gdir
 
 
+def alt_repo():
+    """VERIF_REPO=<dir>: development aid for trying the checks against another checkout of the repository
+    (a scratch worktree with a seeded change) without touching /repo while other jobs build from it. The
+    registered commands never set it."""
+    r = os.environ.get("VERIF_REPO")
+    return r.rstrip("/") if r else None
+
+
+def group_dir(group):
+    """harness crate directory; with VERIF_REPO a copy whose path dependencies point at that checkout"""
+    src = os.path.join(VERIF, "engines", "kani", group)
+    r = alt_repo()
+    if not r:
+        return src, os.path.join(BUILD, group)
+    key = hashlib.sha1(r.encode()).hexdigest()[:8]
+    base = os.path.join(BUILD, "alt", key)
+    dst = os.path.join(base, "engines", "kani", group)
+    if os.path.exists(dst):
+        shutil.rmtree(dst)
+    shutil.copytree(src, dst, ignore=shutil.ignore_patterns("target"))
+    sh = os.path.join(base, "shims")
+    if os.path.exists(sh):
+        shutil.rmtree(sh)
+    shutil.copytree(os.path.join(VERIF, "shims"), sh, ignore=shutil.ignore_patterns("target"))
+    for root, _, files in os.walk(base):
+        if "/target" in root:
+            continue
+        for f in files:
+            if f == "Cargo.toml" or f.endswith(".rs") and f == "__never__":
+                pth = os.path.join(root, f)
+                t = open(pth).read()
+                t2 = t.replace('"/repo/', '"%s/' % r)
+                if t2 != t:
+                    open(pth, "w").write(t2)
+    return dst, os.path.join(base, "target-" + group)
+
+
 def run_kani_group(group, names, jobs, harness_timeout, overall_timeout, mem_gb, tag, tier="thorough"):
     """Runs one cargo-kani invocation; returns (json or None, log_path, wall)."""
-    gdir = os.path.join(VERIF, "engines", "kani", group)
+    gdir, tdir_override = group_dir(group)
     os.makedirs(os.path.join(BUILD, "run"), exist_ok=True)
     rid = "%s-%s-%d" % (tag, group, os.getpid())
     jpath = os.path.join(BUILD, "run", rid + ".json")
@@ -93,7 +131,7 @@ def run_kani_group(group, names, jobs, harness_timeout, overall_timeout, mem_gb,
     for p in (jpath, lpath):
         if os.path.exists(p):
             os.remove(p)
-    tdir = os.path.join(BUILD, group)
+    tdir = tdir_override
     cmd = ["cargo", "kani"] + KANI_FLAGS + ["--target-dir", tdir, "--exact"]
     for n in names:
         cmd += ["--harness", n]
@@ -105,7 +143,7 @@ def run_kani_group(group, names, jobs, harness_timeout, overall_timeout, mem_gb,
     lockf = open(os.path.join(BUILD, group + ".lock"), "w")
     fcntl.flock(lockf, fcntl.LOCK_EX)
     try:
-        prepare_group(group, tier)   # (re)generate harness modules under the group lock
+        prepare_group(group, tier, gdir)   # (re)generate harness modules under the group lock
         with open(lpath, "w") as lf:
             lf.write("$ " + sh + "\n")
             lf.flush()
@@ -193,11 +231,12 @@ def playback(h, group, pid):
     """Concrete playback of a failing harness: ask Kani for the concrete assignment
     (solver model), then execute it natively against the real code (dev + release).
     -> (reproduced: bool|None, replay_path, detail)"""
-    gdir = os.path.join(VERIF, "engines", "kani", group)
+    gdir, tdir = group_dir(group) if not alt_repo() else (
+        os.path.join(BUILD, "alt", hashlib.sha1(alt_repo().encode()).hexdigest()[:8], "engines", "kani", group),
+        os.path.join(BUILD, "alt", hashlib.sha1(alt_repo().encode()).hexdigest()[:8], "target-" + group))
     os.makedirs(os.path.join(EVID, "replays"), exist_ok=True)
     short = h.name.split("::")[-1]
     rpath = os.path.join(EVID, "replays", "%s-%s.json" % (pid, short))
-    tdir = os.path.join(BUILD, group)
     cmd = ["cargo", "kani"] + KANI_FLAGS + ["--target-dir", tdir, "--exact", "--harness", h.name,
                                              "-Z", "concrete-playback", "--concrete-playback=print",
                                              "--harness-timeout", "1800s"]
@@ -243,7 +282,9 @@ def run_playback(rec):
     """Builds a scratch copy of the harness crate with the playback test appended and runs it natively."""
     group = rec["group"]
     gdir = os.path.join(VERIF, "engines", "kani", group)
-    sdir = os.path.join(BUILD, "replay", group)
+    if alt_repo():
+        gdir = os.path.join(BUILD, "alt", hashlib.sha1(alt_repo().encode()).hexdigest()[:8], "engines", "kani", group)
+    sdir = os.path.join(BUILD, "replay" + ("-alt" if alt_repo() else ""), group)
     if os.path.exists(sdir):
         tgt = os.path.join(sdir, "target")
         # keep the target dir for speed
@@ -263,7 +304,7 @@ def run_playback(rec):
             shutil.copy(src, dst)
     # path deps on shims are relative (../../../shims) -> make absolute
     ct = open(os.path.join(sdir, "Cargo.toml")).read()
-    ct = ct.replace("../../../shims", os.path.join(VERIF, "shims"))
+    ct = ct.replace("../../../shims", os.path.join(os.path.dirname(os.path.dirname(os.path.dirname(gdir))), "shims"))
     open(os.path.join(sdir, "Cargo.toml"), "w").write(ct)
     mod = rec["harness"].split("::")[0]
     mf = os.path.join(sdir, "src", mod + ".rs")
